@@ -138,6 +138,10 @@ def handlePTN : Handler := fun st op args =>
     some (st, match hexDec h with
       | none => "bad-hex"
       | some b => fmtR (parsePTN (mkEnv st noTps) b) fmtFile)
+  | "ptnchunk", [_k, h] =>
+    some (st, match hexDec h with
+      | none => "bad-hex"
+      | some b => fmtR (parsePTN (mkEnv st noTps) b) fmtFile)
   | "ptnparse", [h] =>
     some (st, match hexDec h with
       | none => "bad-hex"
